@@ -1,6 +1,6 @@
 //@ unit base64dec
 //@ props C14
-//@ rlimit 60
+//@ rlimit 120
 //@ source src/decoder.rs
 #![feature(allocator_api)]
 #![allow(unused_imports, dead_code, unused_variables, unused_mut)]
